@@ -37,7 +37,8 @@ def main():
             'evidence_file': 'evidence/%s.json' % pid,
             'replay_cmd_template': './check %s --replay {path}' % pid,
             'engine': 'dtmc',
-            'level_claimed': {'category': mod.LEVEL, 'text': m['text'],
+            'level_claimed': {'category': mod.LEVEL, 'text': m['text'] + (
+                                  ' ' + m['more'] if m.get('more') else ''),
                               'design_ref': 'DESIGN.md section 4, %s' % pid},
             'level_note': m['note'],
             'technique': m['technique'],
